@@ -107,3 +107,43 @@ Definition validate_observation (codec_ok : chandef -> bool) (has_pred : bool) (
   verify_defs codec_ok (ro_updates ob) &&
   (Z.of_nat (size (ro_values ob)) <=? MaxObservationStreamValuesLength) &&
   forallb (fun kv => match snd kv with STsv _ (SDec _) => true | STsv _ _ => false | _ => true end) (map_to_list (ro_values ob)).
+
+(* ---- Plugin.Observation as a whole (llo/plugin_observation.go) ----
+   Inputs besides the previous outcome bytes: the attested retirement report the cache returns (or its error), the
+   ShouldRetireCache answer (or its error), the ChannelDefinitionCache contents, the data source (the non-nil values
+   it would return for the stream ids it is asked for, or its error).  The wall-clock timestamp is an input too.
+   Ok None = the empty observation of the first round. *)
+Definition plugin_observation (codec_ok : chandef -> bool) (cf : cfg) (seq : Z) (prev_bytes : list Z) (now : Z)
+           (cache_att : res (list Z)) (should_retire : res bool) (expected : gmap Z chandef)
+           (source_vals : gmap Z sval) (source_fails : bool) : res (option raw_observation) :=
+  if seq <? 1 then Err EInvalid
+  else if seq =? 1 then Ok None
+  else
+    match decode_outcome (c_pver cf) prev_bytes with
+    | Panic s => Panic s
+    | Err e => Err e
+    | Ok prev =>
+        if now <? 0 then Err EInvalid
+        else if bool_decide (o_stage prev = Retired) then
+          Ok (Some {| ro_att := []; ro_retire := false; ro_ts := now; ro_removes := []; ro_updates := ∅; ro_values := ∅ |})
+        else if negb (verify_defs codec_ok (o_defs prev)) then Err EInvalid       (* "previousOutcome.Definitions is invalid" *)
+        else
+          match (if c_has_pred cf && bool_decide (o_stage prev = Staging) then cache_att else Ok []) with
+          | Panic s => Panic s
+          | Err e => Err e
+          | Ok att =>
+              match should_retire with
+              | Panic s => Panic s
+              | Err e => Err e
+              | Ok retire =>
+                  let '(rm, up) := honest_votes codec_ok prev expected in
+                  if bool_decide (o_defs prev = ∅) then
+                    Ok (Some {| ro_att := att; ro_retire := retire; ro_ts := now; ro_removes := rm; ro_updates := up; ro_values := ∅ |})
+                  else if source_fails then Err EOther
+                  else
+                    let wanted := unique_stream_set (o_defs prev) in
+                    Ok (Some {| ro_att := att; ro_retire := retire; ro_ts := now; ro_removes := rm; ro_updates := up;
+                                ro_values := base.filter (fun kv : Z * sval => is_Some (wanted !! fst kv)) source_vals |})
+              end
+          end
+    end.
